@@ -2,9 +2,21 @@
 // document and report how every identifier and every process-qualified name P.x was bound.
 //   c07 batch   stdin: "<id> <base64 xml> <base64 of newline-separated queries>"
 //   stdout:  BEGIN id / RC n errors=k / Q <i> <binding tokens...> / END id
-//   binding tokens:  ID:<name>:<type>   for an identifier,   DOT:<process>.<member label>#<index>:<type of P.x>   for P.x
+//   binding tokens:  ID:<name>:<type>   for an identifier,   DOT:<process>.<member label>#<index>:<type of P.x>   for P.x,
+//                    DECL:<process>.<name>#<index>   the declaration the index of P.x designates in the frame of P's template (what
+//                    every consumer of a process member reads: process.templ->frame[index]), `?` when it designates none
+//   a query line `TC <query>` is also type checked as a property:  TC:ok  or  TC:<first diagnostic>
+//   call sequences: a line starting with `#` changes the built document between two queries (one output line each, `Q <i> ...`):
+//     #remove-process <name>   Document::remove_process on the process of that name        REMOVED:<name>@<n> | REMOVED:none
+//     #remove-symbol <name>    frame_t::remove on the global frame's own symbol of the name    REMOVED:<name>@<n> | REMOVED:none
+//     #resolve-all             frame_t::resolve in the global frame for every name it held  AT:<name>@<n> | AT:<name>@none ...
+//   <n> is the position the symbol had in the global frame BEFORE the first change (line `G <name> <name> ...`, printed once,
+//   ahead of the first `#` line); after the first change every identifier of a query is also reported as AT:<name>@<n>
+//   (`@local` for a symbol that never was in the global frame).
 #include "common.hpp"
 
+#include <algorithm>
+#include <set>
 #include <typeinfo>
 
 using namespace UTAP;
@@ -38,6 +50,15 @@ static std::string nosp(std::string s)
     return s;
 }
 
+/// the global frame as it was before the first change of the document (empty: no change yet)
+static std::vector<symbol_t> snapshot;
+
+static std::string at(const symbol_t& s)
+{
+    auto it = std::find(snapshot.begin(), snapshot.end(), s);
+    return it == snapshot.end() ? std::string("local") : std::to_string(it - snapshot.begin());
+}
+
 static void bindings(const expression_t& e, std::ostream& os)
 {
     if (e.empty()) return;
@@ -46,11 +67,54 @@ static void bindings(const expression_t& e, std::ostream& os)
         type_t pt = e[0].get_type();
         int idx = e.get_index();
         std::string label = (idx >= 0 && (uint32_t)idx < pt.size()) ? pt.get_label(idx) : std::string("?");
-        os << " DOT:" << e[0].get_symbol().get_name() << "." << label << "#" << idx << ":" << nosp(vh::tsexp(e.get_type()));
+        symbol_t ps = e[0].get_symbol();
+        os << " DOT:" << ps.get_name() << "." << label << "#" << idx << ":" << nosp(vh::tsexp(e.get_type()));
+        auto* inst = static_cast<const instance_t*>(ps.get_data());
+        std::string decl = "?";
+        if (inst != nullptr && inst->templ != nullptr && idx >= 0 && (uint32_t)idx < inst->templ->frame.get_size())
+            decl = inst->templ->frame[idx].get_name();
+        os << " DECL:" << ps.get_name() << "." << decl << "#" << idx;
+        if (!snapshot.empty()) os << " AT:" << ps.get_name() << "@" << at(ps);
         return;
     }
-    if (k == IDENTIFIER) os << " ID:" << e.get_symbol().get_name() << ":" << nosp(vh::tsexp(e.get_symbol().get_type()));
+    if (k == IDENTIFIER) {
+        os << " ID:" << e.get_symbol().get_name() << ":" << nosp(vh::tsexp(e.get_symbol().get_type()));
+        if (!snapshot.empty()) os << " AT:" << e.get_symbol().get_name() << "@" << at(e.get_symbol());
+    }
     for (size_t i = 0; i < e.get_size(); ++i) bindings(e[i], os);
+}
+
+/// `#...` lines: a change of the document through its public interface, or a question to the global frame itself
+static void directive(Document& doc, const std::string& line, std::ostream& os)
+{
+    std::istringstream is(line);
+    std::string op, name;
+    is >> op >> name;
+    frame_t globals = doc.get_globals().frame;
+    if (op == "#remove-process") {
+        for (auto& p : doc.get_processes())
+            if (p.uid.get_name() == name) {
+                os << " REMOVED:" << name << "@" << at(p.uid);
+                doc.remove_process(p);
+                return;
+            }
+        os << " REMOVED:none";
+    } else if (op == "#remove-symbol") {
+        if (auto idx = globals.get_index_of(name)) {
+            symbol_t s = globals[*idx];
+            os << " REMOVED:" << name << "@" << at(s);
+            globals.remove(s);
+        } else
+            os << " REMOVED:none";
+    } else if (op == "#resolve-all") {
+        std::set<std::string> seen;
+        for (auto& s0 : snapshot) {
+            if (s0.get_name().empty() || !seen.insert(s0.get_name()).second) continue;
+            symbol_t s;
+            os << " AT:" << s0.get_name() << "@" << (globals.resolve(s0.get_name(), s) ? at(s) : std::string("none"));
+        }
+    } else
+        os << " BAD-DIRECTIVE";
 }
 
 int main(int, char**)
@@ -62,7 +126,8 @@ int main(int, char**)
         std::string id, b64, qb64;
         if (!(is >> id >> b64 >> qb64)) continue;
         std::string input = b64dec(b64), queries = b64dec(qb64);
-        std::cout << "BEGIN " << id << "\n";
+        std::cout << "BEGIN " << id << std::endl;      // flushed: if the process dies, the case it died in is known
+        snapshot.clear();
         auto doc = std::make_unique<Document>();
         std::string rc;
         try {
@@ -78,16 +143,35 @@ int main(int, char**)
             if (q.empty()) continue;
             size_t nerr = doc->get_errors().size();
             std::ostringstream os;
+            bool tc = q.rfind("TC ", 0) == 0;
+            if (tc) q = q.substr(3);
             try {
-                expression_t e = vh::parseQuery(*doc, q);
-                if (e.empty()) os << " EMPTY";
-                bindings(e, os);
+                if (q[0] == '#') {
+                    if (snapshot.empty()) {
+                        for (auto& s : doc->get_globals().frame) snapshot.push_back(s);
+                        std::cout << "G";
+                        for (auto& s : snapshot) std::cout << " " << (s.get_name().empty() ? std::string("\"\"") : s.get_name());
+                        std::cout << "\n";
+                    }
+                    directive(*doc, q, os);
+                } else {
+                    expression_t e = vh::parseQuery(*doc, q);
+                    if (e.empty()) os << " EMPTY";
+                    bindings(e, os);
+                    if (tc && !e.empty()) {
+                        size_t n0 = doc->get_errors().size();
+                        TypeChecker checker{*doc};
+                        checker.visitProperty(e);
+                        os << " TC:" << (doc->get_errors().size() == n0 ? std::string("ok") : nosp(doc->get_errors()[n0].msg));
+                    }
+                }
             } catch (const std::exception& ex) {
                 os << " EXC:" << typeid(ex).name();
             }
             std::cout << "Q " << i << os.str();
             for (size_t k = nerr; k < doc->get_errors().size(); ++k) std::cout << " ERR:" << nosp(doc->get_errors()[k].msg);
             std::cout << "\n";
+            if (!snapshot.empty()) std::cout.flush();      // a changed document: keep what was answered so far
             ++i;
         }
         std::cout << "END " << id << "\n";
